@@ -142,6 +142,9 @@ class Interp(ModelMixin):
     def call_function(self, fi: FuncInfo, args: List[Val], kwargs: Dict[str, Val], st: State, node,
                       self_val: Optional[Val] = None) -> List[Tuple[Any, State]]:
         """Inline the callee.  Returns [(value | Raise, state)]."""
+        if fi.kind == 'opaque':
+            self.note(f'{fi.short} carries an unknown decorator {list(fi.decorators)}: treated as opaque')
+            return [(Unknown('opaque ' + fi.short), st)]
         if len(st.frames) >= MAX_DEPTH or any(f.func is fi and f.site == id(node) for f in st.frames):
             raise AnalysisError(f'recursion or call depth exceeded at {fi.qualname}')
         self.stats['calls'] += 1
@@ -1331,6 +1334,22 @@ class Interp(ModelMixin):
             if name == '__class__':
                 return [(ClsV(ci.qualname), st)]
             fi = ci.find(name)
+            if fi is not None and fi.kind == 'opaque':
+                self.note(f'{fi.short} carries an unknown decorator {list(fi.decorators)}: treated as opaque')
+                return [(Unknown('opaque ' + fi.short), st)]
+            if fi is not None and fi.kind == 'property' and fi.cached:
+                # functools.cached_property: evaluated once, then served from the instance dictionary
+                stored = e.get('%cached:' + name)
+                if stored is not None:
+                    return [(stored, st)]
+                outs = self.call_function(fi, [], {}, st, node, self_val=o)
+                res = []
+                for v, s in outs:
+                    if not isinstance(v, Raise) and o.sym in s.heap:
+                        s.put(o.sym, s.get(o.sym).set('%cached:' + name, v))
+                        self.on_cached_property(o, fi, v, s, node)
+                    res.append((v, s))
+                return res
             if fi is not None and fi.kind == 'property':
                 memo = st.mon.get('propmemo')
                 if memo and (o.sym, fi.qualname) in memo:
@@ -1446,4 +1465,7 @@ class Interp(ModelMixin):
         raise AnalysisError(f'attribute store on {type(o).__name__} at line {getattr(node, "lineno", "?")}')
 
     def on_setfield(self, obj, name, old, new, st, node):
+        pass
+
+    def on_cached_property(self, obj, fi, value, st, node):
         pass
